@@ -230,8 +230,10 @@ func verifHarnessC06ConcurrentWriters() {
 	e2 := &audit.Entry{Secret: nondetString("secret2"), Action: acl.ActionPut, Authorized: nondetBool("auth2")}
 	assume(e1.Secret != e2.Secret)
 	sink.second = e2
+	raceBegin()
 	err1 := w.WriteEntries(e1)
 	joinConcurrent()
+	raceEnd()
 	assert("both-calls-succeed", and(err1 == nil, sink.err2 == nil))
 	got1, got2, other := 0, 0, 0
 	for _, rec := range sink.writes {
